@@ -24,6 +24,10 @@ sys.path.insert(0, ROOT)
 BUDGET = {'quick': dict(z3_ms=8000, cvc5_ms=15000, fin_ms=20000), 'thorough': dict(z3_ms=40000, cvc5_ms=60000, fin_ms=90000)}
 
 
+GEN_LIMIT_S = 1200
+CONTRACT_SOLVER_S = {'quick': 400, 'thorough': 2400}
+
+
 def _contract_job(args):
     """worker: one contract -> plain-data result"""
     modname, idx, tier, seed, repo = args
@@ -48,21 +52,40 @@ def _contract_job(args):
             o2.setdefault('wall_s', round(time.time() - t0, 3))
             return o2
         budget = BUDGET[tier]
-        run = FunctionRun(c).generate()
+        from pyvc import native
+        try:
+            with native.time_limit(GEN_LIMIT_S):       # edited code may contain a concrete non-terminating loop: undecided, never a hang
+                run = FunctionRun(c).generate()
+        except native.NativeTimeout:
+            out['error'] = 'out of subset: generating the obligations did not finish within %d s' % GEN_LIMIT_S
+            out['wall_s'] = round(time.time() - t0, 3)
+            return out
         out['stats'] = run.stats
         out['sha256'] = run.loc.sha256 if run.loc else None
         out['lineno'] = run.loc.lineno if run.loc else None
         out['gen_s'] = round(getattr(run, 'gen_s', 0.0), 3)
         if run.vc is not None:
             out['n_paths'] = run.vc.n_paths
+            out['deepest_path'] = getattr(run.vc, 'deepest', 0)
+            if os.environ.get('PYVC_DEPTHLOG'):
+                open(os.environ['PYVC_DEPTHLOG'], 'a').write('%s %d %d %d\n' % (run.vc.func, run.vc.deepest, run.vc.n_paths, len(run.vc.obligations)))
             out['inlined'] = [list(x) for x in getattr(run.vc, 'inlined', [])]
         if run.error:
             out['error'] = run.error
         obs = [o for o in (run.vc.obligations if run.vc else []) if o.expect == 'unsat']
         open_ = []
         samples = []
+        t_dis = time.time()
+        # obligations whose goal is literally False (a contract clause the executed path contradicts outright) first: they are
+        # decided by path feasibility alone and must not be starved by the solver budget of the contract
+        obs = sorted(obs, key=lambda o: 0 if z3.is_false(o.goal) else 1)
         for o in obs:
-            r = smt.discharge(o, run.vc.axioms, budget, seed=seed, both=(tier == 'thorough'))
+            if time.time() - t_dis > CONTRACT_SOLVER_S[tier]:
+                # an edited body can generate thousands of hard obligations: bound the solver time per contract; the rest is undecided
+                r = smt.Result(name=o.name, kind=o.kind, verdict='undecided', backend=None, seconds=0.0, note=o.note, expect=o.expect, func=o.func,
+                               reason='solver budget of this contract (%d s) exhausted' % CONTRACT_SOLVER_S[tier])
+            else:
+                r = smt.discharge(o, run.vc.axioms, budget, seed=seed, both=(tier == 'thorough'))
             r.key = _key(o)
             if len(samples) < 2 and o.kind.startswith(('post', 'inv-step')):
                 samples.append(dict(name=o.name, note=o.note, smt2_head=smt.smt2_head(o, run.vc.axioms, 500)))
@@ -72,8 +95,13 @@ def _contract_job(args):
         out['samples'] = samples
         # finitised mode: vacuity covers always; counter-models for what is still open
         need_fin = bool(open_) or c.cover
-        if need_fin and not run.error:
-            frun = FunctionRun(c, fin=c.fin).generate()
+        if need_fin and (not run.error or (run.vc is not None and run.vc.obligations)):     # a partially explored function still has real per-path obligations
+            try:
+                with native.time_limit(GEN_LIMIT_S):
+                    frun = FunctionRun(c, fin=c.fin).generate()
+            except native.NativeTimeout:
+                frun = FunctionRun(c, fin=c.fin)
+                frun.error = 'finitised generation did not finish within %d s' % GEN_LIMIT_S
             if frun.error:
                 out['fin_error'] = frun.error
             fobs = frun.vc.obligations if frun.vc else []
@@ -88,9 +116,12 @@ def _contract_job(args):
             second_budget = [90.0]
             for o in fobs:
                 bykey.setdefault(_key(o), []).append(o)
+            t_fin = time.time()
             for o, r in open_:
                 cands = bykey.get(_key(o), [])
                 verdict = 'undecided'
+                if time.time() - t_fin > CONTRACT_SOLVER_S[tier]:
+                    cands = []          # counter-model search budget of this contract exhausted: the rest stays undecided
                 for fo in cands:
                     rr, dt, model = smt.refute_finite(fo, frun.vc.axioms, bounds, budget['fin_ms'], seed)
                     if rr == 'sat':
